@@ -141,7 +141,7 @@ def c07(prop, tier, seed, core):
     m["violations"].extend(extra_viol)
     # hostile scenarios, one process each
     # also 2^32 span ids on one thread (the per-thread counter wraps; about ten seconds)
-    add_hostile(m, core, prop, work, tier, HOSTILE + ["id-counter-wrap", "deep-backlog", "deep-backlog-cancel"], known_sigs)
+    add_hostile(m, core, prop, work, tier, HOSTILE + ["id-counter-wrap", "deep-backlog", "deep-backlog-cancel", "set-reporter-vs-cycles"], known_sigs)
     if tier == "thorough":
         add_sanitizers(m, core, prop, work, seed)
     m["rule"] = (core.RULES["progsim"] + " C07 adds: programs from a hostile profile (40% no-op parents, empty parent sets, 25% unsampled roots, property "
@@ -243,7 +243,7 @@ def c01(prop, tier, seed, core):
         add_tsan_quick(m, core, prop, os.path.join(core.WORK, prop), seed)
         m["rule"] = core.RULES["progsim"] + " The quick tier also runs the stress engine (4500 jobs, two configurations) in a ThreadSanitizer build with an instrumented standard library; a report is a violation."
     # the background collector on its own: a delayed last command followed by silence
-    add_hostile(m, core, prop, os.path.join(core.WORK, prop), tier, ["lone-late-send", "reconfigure-interval"], [e["signature"] for e in core.known_for(prop)])
+    add_hostile(m, core, prop, os.path.join(core.WORK, prop), tier, ["lone-late-send", "reconfigure-interval", "flush-delivers-what-finished-before-it"], [e["signature"] for e in core.known_for(prop)])
     m["rule"] += (" One separate process: 36 rounds in which a thread's last command is held up for 0.5-9.5 ms right before it enters the queue, the thread exits, "
                   "and nothing calls into the library afterwards; the background collector (2 ms interval) must report the span. Another process configures a 1 h report interval, then re-configures 5 ms and waits for "
                   "background delivery.")
@@ -290,7 +290,7 @@ def c06(prop, tier, seed, core):
     work = os.path.join(core.WORK, prop)
     known_sigs = [e["signature"] for e in core.known_for(prop)]
     # several roots that continue one and the same trace id, a span over all of them
-    add_hostile(m, core, prop, work, tier, ["shared-trace-id", "shared-trace-id-cancelable"], known_sigs)
+    add_hostile(m, core, prop, work, tier, ["shared-trace-id", "shared-trace-id-cancelable", "many-cycles-before-finish", "many-cycles-before-finish-cancelable"], known_sigs)
     m["rule"] = core.RULES["progsim"] + (" Two separate processes run 150 seeded rounds each in which 2-4 roots continue the SAME trace id, a span is created over all of "
                                           "them, events and properties are attached by every route with collector cycles in between, and every copy of the span (told "
                                           "apart by its parent id) must carry each attachment exactly once.")
@@ -313,12 +313,26 @@ def c03(prop, tier, seed, core):
 HANDLERS["C03"] = c03
 
 
+def c10(prop, tier, seed, core):
+    m = core.check_progsim_family(prop, tier, seed)
+    work = os.path.join(core.WORK, prop)
+    known_sigs = [e["signature"] for e in core.known_for(prop)]
+    add_hostile(m, core, prop, work, tier, ["panicking-closures-in-scope"], known_sigs)
+    m["rule"] = core.RULES["progsim"] + (" One separate process: inside an open scope, property closures given to every closure-taking entry point panic (contained by the caller); "
+                                          "after each the thread's local context must be the scope's span again, and spans recorded afterwards must hang where they belong.")
+    return m
+
+
+HANDLERS["C10"] = c10
+HANDLERS["C11"] = c10
+
+
 def c08(prop, tier, seed, core):
     m = core.check_progsim_family(prop, tier, seed)
     work = os.path.join(core.WORK, prop)
     known_sigs = [e["signature"] for e in core.known_for(prop)]
     # retained state measured from outside: live heap bytes of the process over identical rounds
-    add_hostile(m, core, prop, work, tier, ["steady-state-heap", "steady-state-heap-cancelable"], known_sigs)
+    add_hostile(m, core, prop, work, tier, ["steady-state-heap", "steady-state-heap-cancelable", "deep-backlog"], known_sigs)
     m["rule"] = core.RULES["progsim"] + (" Every twelfth program contains a queue-full episode. Two separate processes (one per configuration) run 45 identical rounds of 20 finished "
                                           "traces each (late children and late attachments after the root, cancels, children on other threads, unsampled traces) under a counting "
                                           "allocator: the live heap of the process must not keep growing from round to round (whatever container would hold the state).")
